@@ -52,6 +52,7 @@ double decimal(double m, int k) { char b[40]; snprintf(b, sizeof b, "%.3ge%d", m
 double clampd(double v, double lo, double hi) { return v < lo ? lo : v > hi ? hi : v; }
 int decade(double v) { return (int)std::floor(std::log10(v)); }
 
+static bool g_huge = false;
 Spec make_spec(Rng& g) {
     Spec s;
     { double u = g.uni(); s.variant = u < 0.5 ? 0 : u < 0.9 ? 1 : 2; }
@@ -64,9 +65,10 @@ Spec make_spec(Rng& g) {
     // intended voxel counts: aspect ratio up to 1e3, product <= 2e5
     {
         double A = g.coin(0.5) ? g.logu(1, 10) : g.logu(10, 1000), r = g.logu(1, A), V = g.logu(1, 2e5);
+        if (g_huge) { A = g.logu(1, 3); r = g.logu(1, A); V = g.logu(1.05e6, 2.5e6); }   // more than a million voxels (--huge=1)
         double m = std::cbrt(V / (A * r)); if (m < 1) m = 1;
         long n0 = (long)std::floor(m), n1 = std::max(1L, std::lround(m * r)), n2 = std::min(5000L, std::max(1L, std::lround(m * A)));
-        n1 = std::min(n1, std::max(1L, 200000L / (n0 * n2)));
+        if (!g_huge) n1 = std::min(n1, std::max(1L, 200000L / (n0 * n2)));
         long nn[3] = {n0, n1, n2}; int P[6][3] = {{0, 1, 2}, {0, 2, 1}, {1, 0, 2}, {1, 2, 0}, {2, 0, 1}, {2, 1, 0}}; int p = g.range(0, 5);
         for (int a = 0; a < 3; a++) s.n[a] = nn[P[p][a]];
     }
@@ -428,7 +430,7 @@ int cmd_grid(const Args& a) {
     for (long i = a.first; i < a.first + a.cases; i++) {
         if (!a.mine(i)) continue;
         Rng g(a.seed, (uint64_t)i, 0x20);
-        const Spec s = make_spec(g);
+        g_huge = a.geti("huge", 0) != 0; const Spec s = make_spec(g); if (g_huge) agg.bin("grids_beyond_a_million_voxels");
         Case c(i);
         // what was generated (recorded by the parent, so it is counted even when the child dies)
         agg.bin(std::string("variant:") + VARIANT[s.variant]); agg.bin(std::string("construction:") + CTOR[s.ctor_mode]);
